@@ -32,6 +32,21 @@ Clauses (violation key  agree:<arch>:<mode>:<mnemonic>:<db form signature>:<clau
       violation: 'validator-rejects-implemented-form' when N still accepts an instance that VAL now refuses, else
       'implemented-form-rejected' (also when the assembler no longer knows the mnemonic).  db forms not in the list are reported as
       unimplemented (evidence only).  The lists are written only by `./check C13 --opt regen=1`.
+  (E) validator-refuses-db-instance[<validator error>]   (x86) the request was instantiated from a db form in a mode the db allows,
+      N encodes it, and the reference says it IS an instance of a db form: the independent field decoder of C01 (lib/x86dec.py, driven
+      by the database: registers, memory form, immediate field, decorations, prefixes) decodes N's bytes as exactly the requested
+      operands under a non-APX db form allowed in the mode, every register exists in the mode, {k0} is not used as a write mask, a REP
+      count register only goes with forms that list a real rep/repne prefix, an immediate the db types as unsigned (ret/retf immu16,
+      and r64,immu32) lies inside the unsigned field, a memory operand carries the size the db gives it (a request that leaves it out is
+      AsmJit's convenience, not a db instance), and an {evex}/{vex}/{vex3} request is matched by a form that has that encoding - but VAL
+      (and V) refuse it.  "both accept it in the modes the database allows".  Everything else N accepts and VAL refuses is the permitted
+      leniency of the fast path (lenient_encoder).
+  (R) recycled-emitter-differs[<kind>:<way>]   "recycled emitter across modes" (harness/c13_names --mode recycle-x86): for the
+      mode-dependent part of the sweep (every instance of an x64-only / x86-only form in BOTH modes + all single deviations of
+      mov add push pop inc dec lea call jmp xchg movsxd vaddps kmovq) one x86::Assembler / x86::Builder / x86::Compiler object is
+      attached to a CodeHolder of the OTHER mode, used, taken off it (code.detach(), holder.reset() + re-init of the same holder,
+      holder destroyed) and attached to a holder of the case's mode with validation on: verdict and bytes (Builder/Compiler: after
+      finalize()) must equal those of a fresh emitter of the same kind.  (AArch64 has one mode: nothing to recycle across.)
   (F) names: see harness/c13_names.cpp (keys names:<arch>:<clause>:<name>).
 
 Root-cause classes.  The deviation class of a case whose clause the form's DEFAULT instantiation already shows is 'default'.  When
@@ -44,7 +59,7 @@ keys are reported (classes 'default' and 'form': CAP_DEFAULT keys of different m
 name clause CAP_NAMES; keys matched by known findings are reported under the known key and consume none of the caps.  Totals are in
 the evidence: violating_cases, violation_keys_not_listed, one note per (arch, mode, clause) with the classes and mnemonics.
 
-opts: only=<mnemonic,...> (x86), forms=<regex on 'mnemonic:syntax'> (a64), arch=x86|a64|names, k=<a64 deviation bound>, regen=1.
+opts: only=<mnemonic,...> (x86), forms=<regex on 'mnemonic:syntax'> (a64), arch=x86|a64|names|recycle, k=<a64 deviation bound>, regen=1.
 Debugging: C13_DEBUG_DIR=<dir> dumps every violating key (viol.txt) and the encoder-only accepted form instances (enc_only.txt).
 """
 import os, re, sys, json, time, shutil, subprocess, collections, multiprocessing, tempfile
@@ -455,6 +470,130 @@ def x86_leg(res, ctx, exes, acc):
 
 
 # =====================================================================================================================
+# x86: recycled emitter across modes
+# =====================================================================================================================
+RECYCLE_NAMES = ("mov", "add", "push", "pop", "inc", "dec", "lea", "call", "jmp", "xchg", "movsxd", "vaddps", "kmovq")
+RECYCLE_KINDS = ("asm", "builder", "compiler")
+RECYCLE_WAYS = ("detach", "reset+reinit-same-holder", "holder-destroyed")
+
+
+def recycle_cases(forms, known):
+    """The mode-dependent part of the sweep: every instance of a form the db allows in one mode only - in BOTH modes (in the
+    excluded mode these are the requests of clause (C)) - and, for a handful of common mnemonics, all single deviations
+    (registers 8..31, 16/32/64-bit addressing, ...), whose legality differs between the modes."""
+    out, seen = [], set()
+    for f in forms:
+        if f["apx"] or f["name"] not in known:
+            continue
+        for mode in (32, 64):
+            if f["arch"] != "ANY":
+                gen = (c for c in X.instantiate(f, mode, k=1) if L.is_form_instance(c.dev, mode))
+            elif f["name"] in RECYCLE_NAMES:
+                gen = X.instantiate(f, mode, k=1)
+            else:
+                continue
+            for c in gen:
+                k = c.key()
+                if k not in seen:
+                    seen.add(k)
+                    out.append(c)
+    return out
+
+
+def run_recycle(exe, lines, workdir, tag):
+    inp = os.path.join(workdir, tag + ".rcases")
+    outp = os.path.join(workdir, tag + ".rout")
+    with open(inp, "w") as f:
+        f.write("\n".join(lines) + "\n")
+    r = subprocess.run([exe, "--mode", "recycle-x86", "--in", inp, "--res", outp], stdout=subprocess.PIPE, stderr=subprocess.PIPE)
+    res = [None] * len(lines)
+    if os.path.exists(outp):
+        with open(outp) as f:
+            for line in f:
+                p = line.split()
+                if len(p) == 16:
+                    res[int(p[0]) - 1] = {p[1]: p[2:6], p[6]: p[7:11], p[11]: p[12:16]}
+    err = r.stderr.decode("utf-8", "replace") if r.returncode != 0 else ""
+    return res, r.returncode, err
+
+
+def recycle_judge(c, r):
+    """-> list of (clause, description): a recycled emitter must answer exactly like a fresh one of the same kind."""
+    out = []
+    other = 32 if c.mode == 64 else 64
+    for kind in RECYCLE_KINDS:
+        fresh = r[kind][0]
+        for w, way in enumerate(RECYCLE_WAYS):
+            got = r[kind][1 + w]
+            if got != fresh:
+                out.append(("recycled-emitter-differs[%s:%s]" % (kind, way),
+                            "%s: a fresh x86::%s (validation on) on a %d-bit CodeHolder answers %s, but the same request through an emitter object that was "
+                            "first attached to a %d-bit holder, used, and taken off it by '%s' answers %s" % (
+                                X.emit_line(c), {"asm": "Assembler", "builder": "Builder", "compiler": "Compiler"}[kind], c.mode, fresh, other, way, got)))
+    return out
+
+
+def _recycle_work(args):
+    i, idx = args
+    out = _new_out()
+    try:
+        cases = [_XG["recycle_cases"][j] for j in idx]
+        wd = _workdir("%s-r%02d" % (_XG["run_id"], i))
+        lines = [X.emit_line(c) for c in cases]
+        res, rc, err = run_recycle(_XG["exes"]["names"], lines, wd, "r")
+        shutil.rmtree(wd, ignore_errors=True)
+        cnt = out["counters"]
+        for c, r in zip(cases, res):
+            if r is None:
+                if rc != 0:
+                    out["violations"].add(("agree:x86:%d:%s:%s:crash" % (c.mode, c.name, c.sig), "crash", "x86", c.mode, "recycled-emitter",
+                                           "c13_names --mode recycle-x86 died (rc %s): %s" % (rc, runner.crash_key(err)), x86_replay_text(c, "recycled-emitter", "process died")))
+                    rc = 0
+                cnt["not_executed"] += 1
+                continue
+            cnt["recycled_emitter_cases"] += 1
+            cnt["recycled_emitter_emissions"] += 12
+            cnt["evaluations"] += 1
+            cnt["observations"] += 12
+            cl = recycle_judge(c, r)
+            if not cl:
+                cnt["distinct_nontrivial"] += 1
+                if r["asm"][0].startswith("Ok"):
+                    cnt["recycled_emitter_accepted_like_fresh"] += 1
+                else:
+                    cnt["recycled_emitter_refused_like_fresh"] += 1
+            for clause, desc in cl:
+                out["violations"].add(("agree:x86:%d:%s:%s:%s" % (c.mode, c.name, c.sig, clause), clause, "x86", c.mode,
+                                       "x%d-to-x%d" % (64 if c.mode == 32 else 86, 86 if c.mode == 32 else 64), desc + " [dev %s]" % c.dev,
+                                       x86_replay_text(c, "recycled-emitter", desc)))
+    except Exception as e:
+        import traceback
+        out["errors"].append("recycle chunk %d: %s\n%s" % (i, e, traceback.format_exc()[-1200:]))
+    return out
+
+
+def recycle_leg(res, ctx, exes, acc):
+    forms = X.load_db(vbuild.REPO)
+    names = sorted(set(f["name"] for f in forms))
+    only = ctx["opts"].get("only")
+    wd = _workdir("run%d-main" % os.getpid())
+    known = C01.known_mnemonics(exes["emit_x86"], names, wd)
+    shutil.rmtree(wd, ignore_errors=True)
+    if only:
+        known = known & set(only.split(","))
+    cases = recycle_cases(forms, known)
+    _XG.update(exes=exes, run_id="run%d" % os.getpid(), recycle_cases=cases)
+    n = NWORK * 2
+    jobs = [(i, list(range(i, len(cases), n))) for i in range(n) if i < len(cases)]
+    with multiprocessing.Pool(NWORK) as pool:
+        outs = pool.map(_recycle_work, jobs, chunksize=1)
+    for o in outs:
+        acc["counters"].update(o["counters"])
+        acc["violations"].merge(o["violations"])
+        res.errors.extend(o["errors"])
+
+
+# =====================================================================================================================
 # AArch64
 # =====================================================================================================================
 def a64_replay_text(plan, tag, text, clause, note, choice=None):
@@ -754,6 +893,8 @@ def run(res, ctx):
         names_leg(res, ctx, acc)
     if arch in (None, "x86"):
         x86_leg(res, ctx, exes, acc)
+    if arch in (None, "x86", "recycle"):
+        recycle_leg(res, ctx, exes, acc)
     t1 = time.time()
     if arch in (None, "a64"):
         a64_leg(res, ctx, exes, acc)
@@ -1007,6 +1148,16 @@ def _replay_x86(res, text, exes, wd, ctx):
     inst = f is not None and c.mode in f["modes"] and not c.dev.startswith("nm=")
     cands = [g for g in forms if g["name"] == c.name] if inst else None
     clauses, (val_ok, n_ok, v_ok) = x86_judge_case(c, rv, rn, val, cands)
+    if mc and mc.group(1) == "recycled-emitter":
+        rres, rc, err = run_recycle(exes["names"], [X.emit_line(c)], wd, "rr")
+        if rres[0] is None:
+            res.add_violation("agree:x86:%d:%s:%s:crash@recycled-emitter" % (c.mode, c.name, c.sig), "recycle-x86 died rc=%s" % rc, text)
+            return
+        if ctx.get("replay"):
+            print("  recycled emitter: %s" % rres[0])
+        for clause, desc in recycle_judge(c, rres[0]):
+            res.add_violation("agree:x86:%d:%s:%s:%s@x%d-to-x%d" % (c.mode, c.name, c.sig, clause, 64 if c.mode == 32 else 86, 86 if c.mode == 32 else 64), desc, text)
+        return
     dc = L.x86_dev_class(c.dev)
     folded = set()
     if clauses and c.dev != "default" and f is not None:
